@@ -258,6 +258,10 @@ func c18TagLookups(p *Prog, r *Report) {
 		r.Floor("R7g", typ+" reflective Set sites", nSet, 2)
 	}
 	c18DataSwitch(p, r)
+	r.Rule("R7e", "the decoding accessors CmdType.Data / FilterType.Data decide whether an element is present from the field itself (kind, nil, tag, name), never from the content of what it points to: a selector or elements value that is present but empty is still reported")
+	c18AccessorSkips(p, r, "R7e")
+	r.Rule("R8", "a period whose end lies in the past keeps its end across an encode/decode hop: the remaining duration the encoder emits is the computed difference itself, never replaced by a constant (no clamp at zero)")
+	noClampRule(p, r, "R8")
 }
 
 // paramMatches: the value is (a conversion of) the parameter at the expected
@@ -417,6 +421,24 @@ func c18DataSwitch(p *Prog, r *Report) {
 					case "Function":
 						// phi(nil, util.Ptr(FunctionType(function)))
 						fctIdx, fctFromTag = fieldIndexOfTag(st.Val)
+						// every alternative (the value may be assigned on several branches) comes from the tag, none from
+						// the command's own function element — builders deliberately set that element to "" for partial commands
+						var alts func(v ssa.Value, d int)
+						alts = func(v ssa.Value, d int) {
+							if ph, isPhi := v.(*ssa.Phi); isPhi && d < 4 {
+								for _, e := range ph.Edges {
+									alts(e, d+1)
+								}
+								return
+							}
+							if isNilConst(v) {
+								return
+							}
+							if _, fromTag := fieldIndexOfTag(v); !fromTag {
+								fctFromTag = false
+							}
+						}
+						alts(st.Val, 0)
 					case "Value":
 						valIdx = fieldIndexOfValue(st.Val)
 					}
@@ -847,4 +869,78 @@ func successFacts(callee *ssa.Function, st *types.Struct) map[string]string {
 		res = map[string]string{}
 	}
 	return res
+}
+
+// c18AccessorSkips: the decoding accessors CmdType.Data / FilterType.Data decide
+// whether an element is present from the field itself (kind, nil, tag, name) and
+// never from the content of what it points to: an element that is present but
+// empty (an empty selector = "all") is still reported.
+func c18AccessorSkips(p *Prog, r *Report, rule string) {
+	n := 0
+	for _, typ := range []string{"CmdType", "FilterType"} {
+		fn := p.Method("model", typ, "Data")
+		if fn == nil {
+			r.Undecided(rule, "anchor:model."+typ+".Data", "", "method not found")
+			continue
+		}
+		conds := map[ssa.Value]bool{}
+		for _, b := range fn.Blocks {
+			if ifi, ok := b.Instrs[len(b.Instrs)-1].(*ssa.If); ok {
+				conds[ifi.Cond] = true
+			}
+		}
+		bad := ""
+		nPred := 0
+		p.InScope(fn, func() {
+			forEachCall(fn, func(site ssa.CallInstruction) {
+				c, ok := site.(*ssa.Call)
+				if !ok {
+					return
+				}
+				callee := c.Call.StaticCallee()
+				if callee == nil || fnPkgPath(callee) != "reflect" || callee.Signature.Recv() == nil || len(c.Call.Args) == 0 {
+					return
+				}
+				// does the result decide a branch?
+				decides := false
+				for v := range forwardTaint(c) {
+					if conds[v] {
+						decides = true
+					}
+				}
+				if !decides {
+					return
+				}
+				nPred++
+				// receiver derived from Elem()/Indirect of a field value
+				through := false
+				var walk func(v ssa.Value, d int)
+				walk = func(v ssa.Value, d int) {
+					if d > 6 || through {
+						return
+					}
+					switch x := v.(type) {
+					case *ssa.Call:
+						if f := x.Call.StaticCallee(); f != nil && fnPkgPath(f) == "reflect" && (f.Name() == "Elem" || f.Name() == "Indirect") {
+							through = true
+							return
+						}
+					case *ssa.UnOp:
+						walk(x.X, d+1)
+					case *ssa.Alloc:
+						if sv := singleStore(x); sv != nil {
+							walk(sv, d+1)
+						}
+					}
+				}
+				walk(c.Call.Args[0], 0)
+				if through {
+					bad = fmt.Sprintf("reflect.%s on the pointee of a field decides a branch (%s)", callee.Name(), p.InstrPos(c))
+				}
+			})
+		})
+		n += nPred
+		r.Check(rule, "model."+typ+".Data|presence-from-field", bad == "", p.Pos(fn.Pos()), fmt.Sprintf("%d reflective predicates decide branches; %s", nPred, bad))
+	}
+	r.Floor(rule, "reflective predicates deciding branches in the accessors", n, 3)
 }
